@@ -1,6 +1,6 @@
 """Pure-Python stand-in for vtlengine's compiled ``vtl_cpp_parser`` extension.
 
-FEASIBILITY PROTOTYPE.  Interprets /repo's own Vtl.g4 / VtlTokens.g4 (read at import time
+Interprets /repo's own Vtl.g4 / VtlTokens.g4 (read at import time
 from the working tree) with ANTLR4 semantics:
 
 * lexer: maximal munch over all lexer rules, ties broken by rule order, channels honoured;
@@ -908,6 +908,37 @@ def parse(text: str) -> ParseNode:
         _set_error(text, tok.line, tok.column, msg, tok.text, max(1, tok.stop - tok.start + 1))
         root = ParseNode((0, -1), [], main[0], main[-1], gen)
     return root
+
+
+
+def parse_private(text: str):
+    """Harness-side parse that does not touch the module-global 'last parse' state.
+    Returns (root or None, main-channel tokens, all tokens incl. comments)."""
+    g = _grammar()
+    tokens, lex_errors = g.lexer.tokenize(text)
+    main = [t for t in tokens if t.channel == 0]
+    p = _Parser(g, main, -1)
+    root = None
+    for end, node in p.rule(0, 0, 0):
+        if end == len(main):
+            root = node
+            break
+    if lex_errors:
+        root = None
+    return root, main, tokens
+
+
+def split_statements(text: str):
+    """Character spans of the top-level statements of a script: list of source substrings (without the ';')."""
+    root, main, _ = parse_private(text)
+    if root is None:
+        return None
+    out = []
+    for ch in root._children:
+        if ch.is_terminal:
+            continue
+        out.append(text[ch._start.start: ch._stop.stop + 1])
+    return out
 
 
 def get_input_text() -> str:
